@@ -506,7 +506,12 @@ func (e *MetaCDC) Create(req *request.CreateRequest) (resp *request.CreateRespon
 		defer e.collectionNames.Unlock()
 		e.collectionNames.excludeData[uKey] = removeOnce(e.collectionNames.excludeData[uKey], excludeCollectionNames)
 		e.collectionNames.data[uKey] = removeOnce(e.collectionNames.data[uKey], newCollectionNames)
-		e.refreshExtraInfoWithoutLock(uKey)
+		if req.ExtraInfo.EnableUserRole {
+			// only a request which has set the user role flag takes it back. The flag is recomputed from the started tasks,
+			// a request without the flag must not do it: another create request of the target, which has set the flag and
+			// is still in flight, is not in the task list yet and its flag would be lost
+			e.refreshExtraInfoWithoutLock(uKey)
+		}
 	}
 
 	defer func() {
